@@ -266,6 +266,29 @@ theorem expire_exact (s : Pool) (k : Nat) (hi : Inv s) :
       List.mem_map.mpr ⟨x, List.mem_filter.mpr ⟨hx, by simp; omega⟩, rfl⟩
     simp [hk, this]
 
+/-- **Delete undoes Add**: taking a freshly added block out again (what `saveBlock` does once
+    the block is connected) restores the pool and every index lookup exactly - the pool keeps
+    no trace of a block that has left it. -/
+theorem delete_add_cancel (s : Pool) (h p : Nat) (hi : Inv s)
+    (hnew : s.find h = none) (hroom : s.orphans.length < s.limit) :
+    ((s.add h p).delete h).orphans = s.orphans ∧
+    ∀ q, Idx.get ((s.add h p).delete h).idx q = Idx.get s.idx q := by
+  have horph : ((s.add h p).delete h).orphans = s.orphans := by
+    rw [delete_orphans, add_room_keeps_all s h p hnew hroom, List.filter_append]
+    have h1 : s.orphans.filter (fun x => x.id != h) = s.orphans := by
+      simp only [Pool.find, List.find?_eq_none] at hnew
+      apply List.filter_eq_self.mpr
+      intro a ha; have := hnew a ha; simpa using this
+    rw [h1]; simp
+  refine ⟨horph, ?_⟩
+  intro q
+  have hinv := delete_inv _ h (add_inv s h p hi)
+  rw [hinv.2 q, horph, hi.2 q]
+
 example : Inv ((Pool.init 2).run [.add 1 7, .add 2 7, .add 3 1, .expire 2]) := reachable_inv _ _
+
+-- hypotheses of delete_add_cancel are satisfiable on a non-trivial pool (a test)
+example : let s := (Pool.init 3).run [.add 1 7, .add 2 1]
+    s.find 5 = none ∧ s.orphans.length < s.limit := by decide
 
 end BytomModel.Props.C12Pool
